@@ -26,7 +26,7 @@ def _nbetter(prev, t, mode):
     return n
 
 
-def h_manager(sym, rungs=None, W=2, E=10, mode="min", max_fail=3):
+def h_manager(sym, rungs=None, W=2, E=10, mode="min", max_fail=3, concrete_metrics=False):
     from syne_tune.optimizer.schedulers.synchronous.hyperband_bracket_manager import SynchronousHyperbandBracketManager
     stubs.shim_modules([HB])
     RUNGS = [[tuple(x) for x in r] for r in rungs]
@@ -93,6 +93,8 @@ def h_manager(sym, rungs=None, W=2, E=10, mode="min", max_fail=3):
                 nfail += 1
                 v = float("nan")
                 sym.goal("failure")
+            elif concrete_metrics:
+                v = float((step * 7 + slot.trial_id * 3) % 11) + 0.01 * slot.trial_id
             else:
                 v = sym.real("m%d" % step, -100, 100)
             slot.metric_val = v
@@ -202,6 +204,11 @@ def obligations(tier):
     obs.append(Ob("C05.a[manager,min,rungs=(4,1)(2,2)(1,4)|..]", "props.c05:h_manager", dict(rungs=R2, W=2, E=10 if quick else 12, mode="min", max_fail=1),
                   bounds=dict(rungs=R2, W=2, events=10 if quick else 12, failures="<=1"), goals=("promotion", "end"),
                   split=(("c1", (0, 1)), ("c2", (0, 1, 2)), ("c3", (0, 1, 2))), budget_s=2400, may_be_incomplete=not quick))
+    # many workers relative to the rung sizes: three or more brackets open at once, a MIDDLE bracket completes a rung first
+    R3 = [[[2, 1], [1, 2]]]
+    obs.append(Ob("C05.a[manager,W=5,rungs=(2,1)(1,2),3-open-brackets]", "props.c05:h_manager", dict(rungs=R3, W=5, E=9, mode="min", max_fail=0, concrete_metrics=True),
+                  bounds=dict(rungs=R3, W=5, events=9, metrics="concrete table (the return ORDER is symbolic)"), goals=("promotion", "second-bracket", "end"),
+                  split=(("c5", (0, 1, 2, 3, 4)), ("c6", (0, 1, 2, 3, 4))), budget_s=1800))
     obs.append(Ob("C05.b[scheduler,geometric(1,2),max_t=4]", "props.c05:h_scheduler", dict(geometric=[1, 2], W=2, E=9, mode="min", max_fail=1, max_t=4),
                   bounds=dict(grace=1, rf=2, max_t=4, W=2, events=9, failures="<=1"), goals=("promotion", "failure", "end"),
                   split=(("c1", (0, 1, 2)), ("c2", (0, 1, 2, 3, 4))), budget_s=1800))
